@@ -29,12 +29,21 @@ Print Assumptions C07_parse_guarded.
    drivers.run, log.firewall and Irc.feedMsg (regenerated inventory HANDLER_LOGS, sanity predicate handler_logs_ok)
    has a constant template with an argument for each utils.str.format directive, so server-controlled text is only
    ever in ARGUMENT position.  (A handler that puts the rejected line into the template — '...%r' % line — makes
-   handler_logs_ok false, and the model then raises ValueError out of the handler for a line such as ":%s".) *)
+   handler_logs_ok false, and the model then raises ValueError out of the handler for a line such as ":%s".)
+   Nor can the debug helper that Logger.exception runs inside those handlers (utils.python.collect_extra_debug_data:
+   getattr of every attribute of the `self`/`cls` objects of the traceback): its guard catches every Exception class
+   (inventory HELPER_GETATTR_CATCHES, sanity predicate helper_ok), so a plugin object with a property that raises is
+   harmless; the example is a callback raising everywhere with such an object in its traceback. *)
 Theorem C07_handlers_do_not_raise :
-  handler_logs_ok = true /\ (forall site, site_raises site = false) /\ (forall line, guard_log_raises line = false) /\
-  consuming [58; 37; 115] = 1%N.
+  handler_logs_ok = true /\ helper_ok = true /\
+  (forall site x, handler_outcome site x = None) /\ (forall line, guard_log_raises line = false) /\
+  consuming [58; 37; 115] = 1%N /\
+  (let ms := run_reads unit (fun _ => true) dec0 h0 h0 [cb_poison]
+               [RData [70; 79; 79; 10; 80; 73; 78; 71; 32; 58; 97; 10]] (init tt) in
+   alive ms = true /\ crashed ms = false /\ escapes ms = [None] /\ sent (fst (m_p ms)) = [[97]]).
 Proof.
-  split; [exact T_logs|]. split; [exact site_quiet|]. split; [exact guard_quiet|]. exact (proj1 consuming_examples).
+  split; [exact T_logs|]. split; [exact T_helper|]. split; [exact handler_quiet|]. split; [exact guard_quiet|].
+  split; [exact (proj1 consuming_examples)|exact poisoned_survives].
 Qed.
 Print Assumptions C07_handlers_do_not_raise.
 
